@@ -117,6 +117,13 @@ def main(tier, seed):
         for key in rng.sample(["staff", "serviceTrip", "deadHeadTrip", "idle"], rng.choice([1, 2])):
             hi["parameters"]["costs"][key] = 10 ** rng.choice([9, 10, 11, 12, 13])
         insts.append(hi)
+    # feature interaction: depots too small (vehicles on the overflow depot: infinite distances) AND maintenance slots
+    # (several rotation cycles: the transition search moves vehicles between them) — seeded C06l hangs only there
+    irng = random.Random(seed * 977 + 6)
+    for _ in range(12 if tier == "quick" else 400):
+        insts.append(instgen.gen_instance(irng, {"depots": irng.choice(["scarce", "zero", "scarce"]), "slots": irng.choice(["some", "many"]),
+                                                 "maxdist": irng.choice(["small", "mid", "spread"]), "ndeps": irng.choice([4, 5, 6]),
+                                                 "ntypes": irng.choice([1, 1, 2])}))
     # the edges of the valid input space (a single location, every departure at the same instant, exactly one departure
     # segment, with slots without tracks / empty depots / idle types); own random stream
     insts += instgen.boundary_instances(random.Random(seed * 131 + 6), 12 if tier == "quick" else 300)
